@@ -1905,6 +1905,8 @@ class Rule(metaclass=LogicalType):
                         f"prefixItems required prefix: [{i}] not provided", item=i
                     )
                 )
+                # the error was only collected (collect_errors=True): there is no value[i] to parse
+                continue
 
             with context.enter(route=i) as arg_context:
                 try:
